@@ -1297,6 +1297,14 @@ class Walker:
                     self.loops.pop()
             self.emit('call', n, pc, **data)
             return ('call', path, recv) if name == 'try_for_each' else ('unit',)
+        if name == 'map' and len(args) == 2 and not cl[1] and isinstance(args[1], tuple) and args[1][:1] == ('fnref',) and not _is_opt(recv_ty) \
+                and not _is_res(recv_ty):
+            # `.map(String::as_str)`, `.map(ToString::to_string)`: a function item as the mapping
+            fname = args[1][1].split('::')[-1]
+            if fname in IDENTITY_METHODS:
+                return recv
+            e, facts = self.elem_of(recv, n['args'][0], pc)
+            return ('mapped', recv, ('call', args[1][1], e), facts)
         if name in ('filter', 'map', 'filter_map') and len(args) == 2 and cl[1] and not _is_opt(recv_ty):
             # lazy adaptors: the closure body is walked once, now (its events belong to the pipeline),
             # and the resulting element value / facts are cached in the term
